@@ -155,14 +155,15 @@ PROPS = {
                      "C13.c13_one_default_contPolicy", "C13.c13_one_default_contIPVlan", "C13.c13_one_default_contExclusive", "C13.c13_one_default_contVlan",
                      "C13.c13_disabled_family_contPolicy", "C13.c13_disabled_family_contIPVlan", "C13.c13_disabled_family_contExclusive", "C13.c13_disabled_family_contVlan",
                      "C13.c13_disabled_family_hostPeer", "C13.c13_disabled_family_eniPolicy", "C13.c13_disabled_family_slaveIPVlan", "C13.c13_disabled_family_eniIPVlan",
-                     "C13.c13_rule_sync_noop", "C13.c13_setup_rules_setUp", "C13.c13_setup_replaces_stale_rules"],
+                     "C13.c13_rule_sync_noop", "C13.c13_setup_rules_setUp", "C13.c13_setup_replaces_stale_rules",
+                     "C13.c13_clean_keeps_others", "C13.c13_clean_removes_dead", "C13.c13_clean_noop"],
         "rule": "random setup configurations (IPv4 / IPv6 / dual, trunk on/off, default-route on/off, multi-network on/off, 0-2 extra routes of both families with/without gateway, three interface names, link indices 2-31) "
                 "through the eight real configuration generators (policy-route container / host veth / ENI, ipvlan container / slave / ENI, exclusive-ENI container, vlan container) with stub links; the canonicalised nic.Conf "
-                "(addresses, routes with table/gateway/scope/onlink, rules, neighbours, sysctls, strip flag) is compared with the Lean generators. Kernel validation of the FIB semantics (harness/vh/c13fib.go): the real PolicyRoute.Setup / Teardown run against this kernel in private network namespaces (veth pairs stand in for ENIs; 6 quick / 40 thorough scenarios of 2-4 pods on 2 ENIs, optionally a stale rule left by a lost DEL for a re-assigned address, pods torn down in random order); after every step the kernel's `ip rule` dump and `ip route get` answers for to-pod, from-pod and foreign traffic are compared with the Lean FIB model's lookup (lines fib.setup / fib.rules / fib.get / fib.teardown); the daemon's periodic rule sync (4 quick / 24 thorough scenarios, harness/vh/c13sync.go): a pod with 1-3 policy-route interfaces set up by the real PolicyRoute.Setup in namespaces of its own - the ENI is the loopback device of the scenario's host namespace, the only link this kernel reports as *netlink.Device, found by ruleSync through its MAC; one subnet and gateway for the ENI in 60 % of the scenarios, a subnet per interface otherwise -, "
+                "(addresses, routes with table/gateway/scope/onlink, rules, neighbours, sysctls, strip flag) is compared with the Lean generators. Kernel validation of the FIB semantics (harness/vh/c13fib.go): the real PolicyRoute.Setup / Teardown run against this kernel in private network namespaces (veth pairs stand in for ENIs; 6 quick / 40 thorough scenarios of 2-4 pods on 2 ENIs, optionally a stale rule left by a lost DEL for a re-assigned address, pods torn down in random order); after every step the kernel's `ip rule` dump and `ip route get` answers for to-pod, from-pod and foreign traffic are compared with the Lean FIB model's lookup (lines fib.setup / fib.rules / fib.get / fib.teardown); in half of the scenarios the host also holds what an older release left (a pod-priority rule bound to a host veth that no longer exists plus the address-only rule of the same dead pod: lines fib.stale / fib.legacy) and every teardown is followed by the rest of the plugin's DEL, the real utils.GenericTearDown with its CleanIPRules (line fib.clean, model cleanRules); the daemon's periodic rule sync (4 quick / 24 thorough scenarios, harness/vh/c13sync.go): a pod with 1-3 policy-route interfaces set up by the real PolicyRoute.Setup in namespaces of its own - the ENI is the loopback device of the scenario's host namespace, the only link this kernel reports as *netlink.Device, found by ruleSync through its MAC; one subnet and gateway for the ENI in 60 % of the scenarios, a subnet per interface otherwise -, "
                 "then 1-2 passes of the real ruleSync (hook daemon.VerifRuleSync) over the NetConf list the daemon stores (default interface with or without its name; node datapath veth / datapathv2 / unset), rule dump and to-pod / from-pod lookups compared with the model's ruleSync before and after (line fib.sync), kernel monitor C13/kernel/rule-sync/to-pod: every address still reaches the host veth of the interface that owns it; skipped with a note in the evidence when unshare is not permitted. non-trivial = configuration with at least one enabled family field set beyond the address; distinct = distinct op line.",
         "technique": "Lean 4 theorems over generator models and a small policy-routing (FIB) semantics: lookup characterised by minimal-priority yielding rule + longest prefix; differential correspondence of the generators",
         "level_text": "Theorems, for any number of pods sharing ENIs and all addresses: traffic to a pod address is delivered to that pod's host veth; traffic sourced from a pod leaves through the owning ENI via its gateway (table 1000+ifindex); "
-                      "teardown removes exactly the pod's rules and veth routes and nothing of another pod; the daemon's periodic rule sync changes nothing on a host where every interface of the pod is set up (each interface asserted with its own host veth); exactly one main-table default route per enabled family inside the pod (all four container generators); nothing is generated for a disabled family (all eight generators). "
+                      "teardown removes exactly the pod's rules and veth routes and nothing of another pod; the daemon's periodic rule sync changes nothing on a host where every interface of the pod is set up (each interface asserted with its own host veth); cleaning up after vanished devices (CleanIPRules) keeps every rule that is neither device-bound nor about a dead rule's address, and is the identity when no rule is device-bound; exactly one main-table default route per enabled family inside the pod (all four container generators); nothing is generated for a disabled family (all eight generators). "
                       "The FIB semantics itself is a model of the kernel (validated, not verified); ipvlan/vlan/exclusive-ENI host-side forwarding (tc filters, device creation) is outside the model: partial.",
         "level_note": "Trusted: Lean kernel; Model/Datapath.lean, Model/Fib.lean hand-written; Linux policy routing behaves as Model/Fib.lean (rules by ascending priority, first table with a longest-prefix match); nic.Setup applies what the generators emit (ensure-style); "
                       "qdisc/tc/eBPF, sysctl effects and link creation for ipvlan/vlan are not modelled.",
